@@ -7,9 +7,10 @@ plan("C02", [("valset", 10, 80), ("lifecycle", 2, 20)],
           "which filters are non-empty, set cap?, power cap?, tie at the provider active-set boundary?)")
 
 plan("C03", [("valset", 12, 80)],
-     minobs={"threshold-evaluations": 30, "optout-attempt-topn:below": 1, "optout-attempt-topn:at-or-above": 3},
+     minobs={"threshold-evaluations": 30, "optout-attempt-topn:below": 1, "optout-attempt-topn:at-or-above": 3, "topn-changes-judged": 8},
      rule="threshold evaluations compare the stored minimum power with the exact integer threshold over the recorded provider consensus set; "
-          "opt-out attempts are judged against the threshold stored at the start of the block; distinct = (N, #ties at m, size, launch/epoch) "
+          "in the block of a Top-N change (governance proposal) the stored threshold must already be the one for the new value over the set recorded at the start of that block, "
+          "or be gone when the consumer stops being Top-N; opt-out attempts are judged against the threshold stored at the start of the block; distinct = (N, #ties at m, size, launch/epoch) "
           "and (side of m, N, power==m)")
 
 plan("C15", [("valset", 8, 60), ("slash", 2, 20)],
@@ -56,12 +57,14 @@ plan("C09", [("slash", 12, 90)],
           "jailed power, O(n^2) window bound over the meter log at the end of each world; consumer automaton Idle/Waiting/Backoff over observed sends and acks, "
           "queued = handled + pending; distinct = automaton transitions, replenish/clamp classes")
 
-plan("C13", [("lifecycle", 10, 70), ("valset", 2, 10), ("slash", 2, 10), ("keys", 4, 20)],
-     minobs={"single-consumer-blocks": 100, "beginblocks-with-lifecycle-events": 50, "index-entries-pruned-with-their-consumers-own-prune-entry": 10},
+plan("C13", [("lifecycle", 10, 70), ("valset", 2, 10), ("slash", 2, 10), ("keys", 4, 20), ("rewards", 4, 20)],
+     minobs={"single-consumer-blocks": 100, "beginblocks-with-lifecycle-events": 50, "index-entries-pruned-with-their-consumers-own-prune-entry": 10, "reward-credits-consumed-judged-against-own-denoms": 20},
      rule="full snapshots of the provider store after BeginBlock, before EndBlock and after EndBlock of every block; every changed key is attributed to a "
           "consumer id by a decoder of the key layout (validated against the repository's prefix table); keys of consumers the block's transactions / due "
           "lifecycle events do not concern must be untouched, time-queue contents may only move concerned ids; EndBlock pruning removes a key-index entry only together "
           "with a due prune entry of the same consumer listing that address (or with the removal of its validator from staking); "
+          "a consumer's reward credit is consumed in BeginBlock only in denoms registered globally or allow-listed by that consumer itself (rewards worlds: users credit a consumer "
+          "in a denom only another consumer allows); "
           "distinct = (op kinds, phase of the consumer, whether a prefix-related id such as 1/10 exists)")
 
 plan("C14", [("lifecycle", 6, 40), ("valset", 2, 10)], tests=["TestC14Matrix"],
@@ -110,12 +113,14 @@ plan("C19", [("lifecycle", 4, 30), ("valset", 3, 20), ("slash", 3, 20), ("keys",
           "community pool) are unchanged by the block under test in every run; distinct = (scenario, call, position of the affected consumer)")
 
 plan("C11", [("lifecycle", 10, 70), ("slash", 6, 40)], tests=["TestBulk200"],
-     minobs={"stops": 20, "removals": 200, "stopped-consumer-blocks": 300},
+     minobs={"stops": 20, "removals": 200, "stopped-consumer-blocks": 300, "stop-cause:owner": 5, "stop-cause:timeout": 2},
      rule="for every consumer observed in phase stopped: removal time = stop time + unbonding in force; in every block while stopped no validator set or queued "
           "packet of it changes in EndBlock and nothing is sent on its channel; the retained protocol state (client/channel binding, genesis, validator set, opt-ins, "
           "lists, commission rates, queued packets, ...) is compared key by key with its value at the stop until the removal time; removal not before the deadline and "
           "in the first block at/after it; after removal every protocol-state prefix is gone, the channel is CLOSED and only descriptive records remain; "
-          "stops by owner, by timed-out packets (starved relayer, several in flight) and by send failure after the consumer closed its channel end; "
+          "no send attempt (boundary call into the channel keeper, successful or not) on the channel of a consumer stopped in an earlier block; "
+          "stops by owner (also while the CCV handshake is still outstanding and completes afterwards), by timed-out packets (starved relayer, several in flight), by an error "
+          "acknowledgement forged by a malicious consumer, and by send failure after the consumer closed its channel end; "
           "distinct = (cause, repeated stops, removal offset class)")
 
 plan("C17", [("valset", 6, 40), ("lifecycle", 4, 30)], tests=["TestC17Handshake"],
@@ -138,12 +143,13 @@ plan("C07", [], tests=["TestC07Evidence"],
           "distinct = evidence kind x mutation / key relation")
 
 plan("C16", [("rewards", 12, 90)], tests=["TestC16RewardFaults"],
-     minobs={"conservation-checks-under-injected-payout-faults": 40, "fee-splits-checked": 200, "reward-transfers-sent": 100, "reward-transfers-received": 80, "payouts-judged": 300, "payouts-with-ineligible-members": 5,
+     minobs={"conservation-checks-under-injected-payout-faults": 40, "fee-splits-checked": 200, "reward-transfers-sent": 100, "reward-transfers-received": 80, "payouts-judged": 300, "payouts-with-ineligible-members": 5, "user-transfers-into-the-rewards-pool": 10,
              "commissions-checked": 100, "credits-in-unregistered-denoms-kept": 20, "cross-chain-conservation-checks": 6},
      rule="consumer: balances of fee collector / redistribution / to-provider accounts and the transfer escrow before and after every EndBlock against the split rule "
           "(fraction rounded down), transmission height rule, allowed denoms, all-or-nothing transmission; provider: pool balance and per-consumer credits around every "
           "received transfer; reward allocation of every BeginBlock against a model of the statement (eligibility from an independent membership history, proportional "
           "shares, community tax, per-consumer commission) using the boundary calls into x/distribution, outstanding rewards and commission deltas; standing "
           "'credits <= pool'; end-of-world cross-chain conservation sent = credited + refunded + in flight; fees 0..1e18 in three denoms (one unregistered), two "
-          "consumers, joins/leaves/commission changes between crediting and payout; plus the rewards fault scenario of C19 (several consumers credited in two shared denoms, an error "
+          "consumers, joins/leaves/commission changes (rates 0, 1e-18, 1 included) between crediting and payout; transfers into the pool by ordinary consumer-chain users whose reward memo names this, "
+          "another or no consumer (credited to the named consumer, never paid out in a denom that consumer does not allow); plus the rewards fault scenario of C19 (several consumers credited in two shared denoms, an error "
           "injected at every boundary call of the payout block in turn): rewards pool minus all credits and distribution balance minus what it owes must not change; distinct = (fraction, magnitude, allowed?) and (eligible bucket, ineligible?, magnitude, custom rate?)")
